@@ -72,7 +72,7 @@ def done_listing(kind):
         arg = args[1]
         if not isinstance(arg, int) or arg < 0:
             return
-        if (kind == "of_length" and arg > 8) or (kind == "up_to_length" and arg > 8) or (kind == "first" and arg > 120000):
+        if (kind == "of_length" and arg > 9) or (kind == "up_to_length" and arg > 8) or (kind == "first" and arg > 120000):
             CTX.count("oracle_skipped")
             return
         CTX.ev()
@@ -427,9 +427,9 @@ CHECKS = {"interleaved": chk_interleaved, "listing": chk_listing, "rank": chk_ra
 
 # ---- workload --------------------------------------------------------------------------------------------------------
 def plan(tier, seed):
-    nmax = 7 if tier == "quick" else 8
+    nmax = 7 if tier == "quick" else 9
     specs = [{"name": f"rank-{n}-{i}", "kind": "rank", "n": n, "part": i, "parts": parts}
-             for n in range(nmax + 1) for parts in [1 if n < 7 else (8 if n == 7 else 32)] for i in range(parts)]
+             for n in range(nmax + 1) for parts in [1 if n < 7 else (8 if n == 7 else (32 if n == 8 else 160))] for i in range(parts)]
     specs.append({"name": "listings", "kind": "listings", "nmax": nmax})
     specs.append({"name": "mesh", "kind": "mesh", "rand": 2000 if tier == "quick" else 100000})
     specs += [{"name": f"rand-{i}", "kind": "rand", "count": (3000 if tier == "quick" else 60000) // 8} for i in range(8)]
